@@ -920,6 +920,10 @@ fn negatives(r: &mut Rng, n_random: usize) -> Vec<String> {
         "world w { type f = func(); import x: f; }".into(),
         "world w { import t: func(); type t = u8; }".into(),
         "world w { import r: func(); resource r; }".into(),
+        "world w { import a: func(); record a { x: u8 } }".into(),
+        "world w { import r: interface {}; resource r { constructor(); } }".into(),
+        "interface a { f: func(); variant f { x } }".into(),
+        "interface a { f: func(); type f = u8; f: func(); }".into(),
         "world w { type t = u8; import t: func(); }".into(),
         "world w { resource r { constructor(); m: func(); } import f: func(x: borrow<r>) -> r; export g: func() -> r; }".into(),
         "world w { import i: interface { type t = u8; f: func() -> t; }; export j: interface { resource r; }; }".into(),
